@@ -846,7 +846,16 @@ func shrink(ops []opRec, key string) []opRec {
 	return cur
 }
 
+var reported = map[string]int{}
+
 func report(ops []opRec, v *violation) {
+	// one (smallest) witness per key is kept by the report; shrinking is the expensive part, so only the
+	// first few failing histories of a kind are minimised
+	reported[v.key]++
+	rep.Extra["failing_histories:"+v.key] = reported[v.key]
+	if reported[v.key] > 6 {
+		return
+	}
 	small := shrink(ops, v.key)
 	r := runHistory(small, false, true)
 	if r.viol == nil || r.viol.key != v.key {
@@ -856,7 +865,8 @@ func report(ops []opRec, v *violation) {
 	for _, o := range small {
 		hist = append(hist, o.text())
 	}
-	info := map[string]interface{}{"history": hist, "ops": small}
+	info := map[string]interface{}{"history": hist, "ops": small,
+		"observed_after_every_step": "on every live key: String, IsPrivate, Depth, ParentFingerprint, ECPubKey, Address, Child(1), Child(2^31+1) if private (these memoise the public key of private keys)"}
 	for k, x := range r.viol.info {
 		info[k] = x
 	}
